@@ -10,6 +10,7 @@ import NrDaemon.Driver.Limiter
 import NrDaemon.Driver.Json
 import NrDaemon.Driver.Config
 import NrDaemon.Driver.Redact
+import NrDaemon.Driver.SpanQueue
 /-!
   Op-line driver (core Lean only; built as a `lean_exe`).
 
@@ -22,6 +23,7 @@ structure DState where
   mt : MtState := {}
   proc : ProcEng := {}
   lim : LimEng := {}
+  sq : SQEng := {}
 
 def dispatch (st : DState) (line : String) (impl : Option String) : DState × StepOut :=
   let t := tokenize line
@@ -42,6 +44,7 @@ def dispatch (st : DState) (line : String) (impl : Option String) : DState × St
   | some "flags" => (st, flagsStep t impl)
   | some "argv" => (st, argvStep t impl)
   | some "redact" => (st, redactStep t impl)
+  | some "spanq" => let (c, o) := spanqStep st.sq t impl; ({ st with sq := c }, o)
   | some "reset" => ({}, { model := "ok" })
   | _ => (st, { model := "bad-op" })
 
